@@ -336,8 +336,9 @@ class Ctx:
             if d is not None:
                 # pick among the variants the path condition still allows
                 range_only = [c for c in self.pc if d.decl().name() in self._vars_of(c)]
-                if all(str(c) == str(z3.simplify(z3.ULT(d, z3.BitVecVal(len(vs), 64)))) or c.get_id() == z3.ULT(d, z3.BitVecVal(len(vs), 64)).get_id()
-                       for c in range_only):
+                rng = z3.ULT(d, z3.BitVecVal(len(vs), 64))
+                rng_s = z3.simplify(rng)
+                if all(c.eq(rng) or c.eq(rng_s) for c in range_only):
                     # nothing but its range is known: every variant is feasible, no solver calls needed
                     k = self.choose(len(vs))
                     self.assume(d == z3.BitVecVal(k, 64))
